@@ -477,6 +477,82 @@ int main()
                     }
                     else os << " mv 0";
                 }
+                // ---- re-entrant boundary bounce (multi-level points only) ------------------------------
+                // init at pos along u, move_to_boundary, set_dir(-u) on the boundary (re-entrant), cross_boundary
+                // (a no-op then), find_next_step, move_internal(part of the way back): the state - in particular
+                // the local position of EVERY level - must be that of a fresh initialisation at the reached point
+                {
+                    bool done = false;
+                    if (path.v.size() >= 4)
+                    {
+                        for (int att = 0; att < 3 && !done; ++att)
+                        {
+                            Real3 u = dirs[(npoint * 53 + 29 + att * 71) % dirs.size()];
+                            Real3 back{-u[0], -u[1], -u[2]};
+                            OrangeTrackView tv(pref, geo.state->ref(), TrackSlotId{0});
+                            tv = GeoTrackInitializer{pos, u};
+                            auto nx = tv.find_next_step();
+                            if (!nx.boundary || !(nx.distance > 0) || !(nx.distance < 1e3)) continue;
+                            std::size_t nlev_before = level_positions(geo, tv).size();
+                            tv.move_to_boundary();
+                            tv.set_dir(back);
+                            tv.cross_boundary();
+                            if (tv.failed() || tv.is_outside()) continue;
+                            auto nx2 = tv.find_next_step();
+                            if (!(nx2.distance > 0)) continue;
+                            double step = (nx2.distance < 1e3 ? nx2.distance : 1e3) * (0.05 + 0.85 * std::fabs(rnd()));
+                            tv.move_internal(step);
+                            Real3 reached = tv.pos();
+                            double s_b = tv.find_safety(), s_bm = tv.find_safety(1e6);
+                            auto lp_b = level_positions(geo, tv); auto path_b = current_path(geo, tv);
+                            double s_fresh = 0; std::vector<Real3> lp_fresh; PathT path_fresh; bool fresh_ok;
+                            {
+                                OrangeTrackView t2(pref, geo.state->ref(), TrackSlotId{0});
+                                t2 = GeoTrackInitializer{reached, back};
+                                fresh_ok = !(t2.failed() || t2.is_outside() || t2.is_on_boundary());
+                                if (fresh_ok)
+                                {
+                                    s_fresh = t2.find_safety();
+                                    lp_fresh = level_positions(geo, t2); path_fresh = current_path(geo, t2);
+                                }
+                            }
+                            if (!fresh_ok) continue;
+                            double dv = std::numeric_limits<double>::infinity();
+                            if (lp_b.size() == lp_fresh.size())
+                            {
+                                dv = 0;
+                                for (std::size_t i = 0; i < lp_b.size(); ++i)
+                                    for (int k = 0; k < 3; ++k) dv = std::fmax(dv, std::fabs(lp_b[i][k] - lp_fresh[i][k]));
+                            }
+                            Real3 bd2;
+                            double best2 = min_next_step(geo, reached, dirs, rnd, &bd2);
+                            double rmax = std::fmax(s_b, s_bm);
+                            int nbad2 = 0; Real3 badp2{0, 0, 0};
+                            if (rmax > 0 && rmax < 1e300)
+                            {
+                                double rad = rmax * (1 - 1e-6);
+                                for (auto const& d : dirs)
+                                {
+                                    Real3 q{reached[0] + rad * d[0], reached[1] + rad * d[1], reached[2] + rad * d[2]};
+                                    PathT p2;
+                                    bool ok = locate(geo, q, dirs[0], &p2);
+                                    if (!ok || !(p2 == path_fresh)) { if (!nbad2) badp2 = q; ++nbad2; }
+                                }
+                            }
+                            os << " bn 1";
+                            for (auto x : u) os << " " << hex(x);
+                            os << " " << hex(step);
+                            for (auto x : reached) os << " " << hex(x);
+                            os << " " << hex(s_b) << " " << hex(s_bm) << " " << hex(s_b) << " " << hex(s_bm)
+                               << " " << hex(s_fresh) << " " << hex(best2) << " " << hex(dv) << " " << hex(dv) << " "
+                               << ((path_b == path_fresh) ? 1 : 0) << " " << ((path_b == path_fresh) ? 1 : 0) << " " << nbad2;
+                            for (auto x : badp2) os << " " << hex(x);
+                            os << " " << lp_fresh.size() << " " << nlev_before << " " << hex(nx.distance);
+                            done = true;
+                        }
+                    }
+                    if (!done) os << " bn 0";
+                }
                 std::cout << os.str() << "\n";
             }
             catch (std::exception const& e)
